@@ -121,6 +121,13 @@ def class_consts(repo: Repo, relpath: str, clsname: str) -> Dict[str, object]:
     for k, v in bare.items():
         out["self." + k] = v
         out[clsname + "." + k] = v
+    # callables of this module whose *every* definition is annotated with a plain non-None return type
+    ann: Dict[str, List[bool]] = {}
+    for fi in repo.module(relpath).funcs.values():
+        r = fi.node.returns
+        ok = isinstance(r, ast.Name) and r.id in ("bytes", "str", "int", "bool", "bytearray", "float") or (isinstance(r, ast.Constant) and isinstance(r.value, str) and r.value in ("bytes", "str", "int", "bool"))
+        ann.setdefault(fi.node.name, []).append(bool(ok))
+    out["__nonnull__"] = frozenset(k for k, v in ann.items() if all(v))
     return out
 
 
@@ -212,6 +219,8 @@ def explore_consts(
                 except q.NotFoldable:
                     if isinstance(st.value, (ast.Tuple, ast.List)) and st.value.elts:
                         env[name] = NOTNONE
+                    elif isinstance(st.value, ast.Call) and q.call_attr(st.value) in consts.get("__nonnull__", ()):
+                        env[name] = NOTNONE  # result of a callable annotated with a non-None return type
                     elif isinstance(st.value, ast.Name) and env.get(st.value.id) == NOTNONE:
                         env[name] = NOTNONE
                     else:
